@@ -94,6 +94,34 @@ class FP(Feature):
         return np.array([[float(self.calls), self.peak if self.peak > -np.inf else 0.0]])
 
 
+def make_signal(which):
+    """A CLASS FACTORY for user features: every call returns a new class of the same module and qualified name
+    ('Signal') whose single event callback depends on the argument - what a configurable feature library, a notebook
+    cell run twice or a reloaded module produces."""
+
+    class Signal(Feature):
+        def __init__(self):
+            self.v = 0.0
+            super().__init__(space=gymnasium.spaces.Box(-np.inf, np.inf, (1, 1), float), name="Signal")
+
+        def parse(self):
+            return np.array([[self.v]])
+
+    if which == "nbbo":
+        def cb(self, event):
+            self.v = float(event.ask_price)
+        Signal.process_EventNBBO = cb
+    elif which == "step":
+        def cb(self, event):
+            self.v += 1.0
+        Signal.process_EventStep = cb
+    else:
+        def cb(self, event):
+            self.v = float(event.time.toordinal())
+        Signal.process_EventNewDate = cb
+    return Signal
+
+
 def build_xy(seed):
     """The tabular front-end with a transformer given by its shortcut name."""
     import pandas as pd
@@ -189,6 +217,8 @@ def build(spec, share=None):
     if not default_state:
         if rng.random() < 0.8 or kind == "discrete":
             kw["state"] = [FA(cs), FeaturePortfolioWeight(cs, -3, 3), FeatureSpread(cs)] + ([FP()] if rng.random() < 0.6 else [])
+            # (a feature whose class comes out of a factory: same name in every environment, another callback)
+            kw["state"].append(make_signal(["nbbo", "step", "newdate"][seed % 3])())
         else:
             kw["state"] = IState()
     if kind == "spot" and seed % 4 == 0 and not default_state:
